@@ -311,20 +311,25 @@ def store(
             return None
         else:
             stored_persisted = persist(*arrays, **kwargs)
-            arrays = []
-            for s, r in zip(stored_persisted, regions_list):
-                slices = ArraySliceDep(s.chunks)
-                arrays.append(
-                    map_blocks(
-                        load_chunk,
-                        s,
-                        slices,
-                        lock=lock,
-                        region=r,
-                        name="load-stored",
-                        meta=s._meta,
+            if load_stored:
+                # the persisted blocks already are the stored regions read back
+                # (load_store_chunk returned ``out[index]``), not the targets
+                arrays = list(stored_persisted)
+            else:
+                arrays = []
+                for s, r in zip(stored_persisted, regions_list):
+                    slices = ArraySliceDep(s.chunks)
+                    arrays.append(
+                        map_blocks(
+                            load_chunk,
+                            s,
+                            slices,
+                            lock=lock,
+                            region=r,
+                            name="load-stored",
+                            meta=s._meta,
+                        )
                     )
-                )
     if len(arrays) == 1:
         return arrays[0]
     return tuple(arrays)
